@@ -95,12 +95,16 @@ class OsShim:
             dev.closed(fd)
 
     def read(self, fd, n):
+        if not isinstance(fd, int):
+            raise TypeError(f"an integer is required (got type {type(fd).__name__})")       # as the real os module does
         dev = self.fds.get(fd)
         if dev is None:
             raise OSError(9, "Bad file descriptor")
         return dev.read(fd, n)
 
     def write(self, fd, data):
+        if not isinstance(fd, int):
+            raise TypeError(f"an integer is required (got type {type(fd).__name__})")
         dev = self.fds.get(fd)
         if dev is None:
             raise OSError(9, "Bad file descriptor")
@@ -349,6 +353,7 @@ class SerialDevice:
         self.silent = False             # the gateway stops talking altogether
         self.busy_until = 0.0
         self.rxbuf = b""
+        self.late_answers = {}          # (width, value) -> extra seconds before the backward frame of that command is reported
 
     def attach(self, loop, proto, transport):
         self.loop, self.proto, self.transport = loop, proto, transport
@@ -442,6 +447,12 @@ class LubaGateway(SerialDevice):
         answer = None
         if last and ans is not None and self.answering:
             answer = W.luba_event_received([ans[1]]) if ans[0] == "ok" else W.luba_event_received([ans[1]], info=63)
+        late = self.late_answers.get((nbits, value), 0.0)
+        if late and answer is not None:
+            if self.confirm:
+                self.send(self.pick("luba.confirm_delay", [0.001, 0.004]), conf)
+            self.send(0.012 + late, answer)
+            return
         if self.confirm and answer is not None and self.pick("luba.coalesce", [0, 0, 1]):
             # a USB-serial adapter may hand both events to the host in one read
             self.send_whole(self.pick("luba.answer_delay", [0.012, 0.02]), conf + answer)
@@ -523,7 +534,7 @@ class SciGateway(SerialDevice):
                 code = 1 if (ans is None and is_query(nbits, value)) else 0
                 self.send(self.pick("sci.confirm_delay", [0.002, 0.012]), W.sci_frame(self.dev_id | code, 0, 0, 0))
         if ans is not None and ans[0] == "ok" and self.answering:
-            d = self.pick("sci.answer_delay", [0.014, 0.02, 0.028])
+            d = self.pick("sci.answer_delay", [0.014, 0.02, 0.028]) + self.late_answers.get((nbits, value), 0.0)
             self.send(d, W.sci_frame(self.dev_id | 2, 0, 0, ans[1]))
 
     def foreign(self, delay, nbits, value, answer=None):
